@@ -10,7 +10,7 @@
    included; (2) for a closure that returns the error of [decoder] and, when it accepts, leaves a state determined (as far as
    a predicate P observes it) by the value [decoder] returns — it overwrites what it captures on every call, as the three
    closures of decode_response.go do — md_st is Deflate.maybe_deflate (md_st_spec). *)
-From V Require Import Base Time Xml Types Generated Deflate P_Deflate GenPrelude GenPreludeD GenPreludeT GenPreludeDeflate GenDeflate.
+From V Require Import Base Time Xml Types Generated Deflate P_Deflate XmlTok GenPrelude GenPreludeD GenPreludeT GenPreludeDeflate GenDeflate.
 Local Open Scope string_scope.
 Local Open Scope list_scope.
 Local Open Scope Z_scope.
@@ -171,7 +171,14 @@ Section Tie.
     Qed.
   End Parse.
 
-  (* ---------- the unverified decoders ---------- *)
+  (* ---------- the unverified decoders ----------
+     The xml.Unmarshal oracle is indexed by the decoder's CharsetReader setting; the translated closures call it with the
+     setting the translator read off the body of xmlUnmarshalDocument (GenDeflate.xmlUnmarshalDocument_charset_reader), and
+     the theorems below say it is the pass-through one: on a tree whose pre-decoders call xml.Unmarshal (before 6cc4dbc), or
+     whose helper sets no CharsetReader, the translated term carries CsNone and these proofs fail. *)
+  Lemma source_predecoder_charset_reader_is_pass_through : xmlUnmarshalDocument_charset_reader = CsPassThrough.
+  Proof. reflexivity. Qed.
+
   (* Deflate.v's view of xml.Unmarshal into a zero struct: the struct on success, the error otherwise *)
   Definition unmarshal_of {R} (um : string -> R * option err) (s : string) : res R :=
     match snd (um s) with None => Ok (fst (um s)) | Some e => Err e end.
@@ -192,11 +199,11 @@ Section Tie.
     rewrite (proj1 (unverified_ignore_config inflate node _ _ R ep 0 0 (unmarshal_of um) _ raw H)). reflexivity.
   Qed.
 
-  Theorem G_DecodeUnverifiedBaseResponse_is_model : forall (um : string -> base_response * option err) (enc : string),
-    G_DecodeUnverifiedBaseResponse inflate um enc = PVal (unverified_entry EP_DecodeUnverifiedBaseResponse um enc).
+  Theorem G_DecodeUnverifiedBaseResponse_is_model : forall (um : charset_reader -> string -> base_response * option err) (enc : string),
+    G_DecodeUnverifiedBaseResponse inflate um enc = PVal (unverified_entry EP_DecodeUnverifiedBaseResponse (um CsPassThrough) enc).
   Proof.
-    intros um enc. rewrite unverified_entry_is_maybe_deflate by reflexivity.
-    unfold G_DecodeUnverifiedBaseResponse, run_fn.
+    intros um0 enc. set (um := um0 CsPassThrough). rewrite unverified_entry_is_maybe_deflate by reflexivity.
+    unfold G_DecodeUnverifiedBaseResponse, run_fn, xmlUnmarshalDocument_charset_reader. fold um.
     destruct (b64_decode enc) as [raw|e]; cbn [err_of_res is_nil negb]; [|reflexivity].
     rewrite G_maybeDeflate_is_md_st.
     match goal with |- context [md_st ?W ?d raw ?m ?w] =>
@@ -215,11 +222,11 @@ Section Tie.
       + subst r. reflexivity.
   Qed.
 
-  Theorem G_DecodeUnverifiedLogoutResponse_is_model : forall (um : string -> logout_response * option err) (enc : string),
-    G_DecodeUnverifiedLogoutResponse inflate um enc = PVal (unverified_entry EP_DecodeUnverifiedLogoutResponse um enc).
+  Theorem G_DecodeUnverifiedLogoutResponse_is_model : forall (um : charset_reader -> string -> logout_response * option err) (enc : string),
+    G_DecodeUnverifiedLogoutResponse inflate um enc = PVal (unverified_entry EP_DecodeUnverifiedLogoutResponse (um CsPassThrough) enc).
   Proof.
-    intros um enc. rewrite unverified_entry_is_maybe_deflate by reflexivity.
-    unfold G_DecodeUnverifiedLogoutResponse, run_fn.
+    intros um0 enc. set (um := um0 CsPassThrough). rewrite unverified_entry_is_maybe_deflate by reflexivity.
+    unfold G_DecodeUnverifiedLogoutResponse, run_fn, xmlUnmarshalDocument_charset_reader. fold um.
     destruct (b64_decode enc) as [raw|e]; cbn [err_of_res is_nil negb]; [|reflexivity].
     rewrite G_maybeDeflate_is_md_st.
     match goal with |- context [md_st ?W ?d raw ?m ?w] =>
@@ -240,7 +247,8 @@ Section Tie.
   (* ---------- totality: no nil dereference, no uncovered operation on any path ---------- *)
   Theorem front_end_never_panics :
     forall (read_from_bytes : string -> option node * bool) (rt_ok : string -> bool)
-           (um_base : string -> base_response * option err) (um_logout : string -> logout_response * option err),
+           (um_base : charset_reader -> string -> base_response * option err)
+           (um_logout : charset_reader -> string -> logout_response * option err),
     (forall data max_size, exists v, G_parseResponse inflate read_from_bytes rt_ok data max_size = PVal v) /\
     (forall enc, exists v, G_DecodeUnverifiedBaseResponse inflate um_base enc = PVal v) /\
     (forall enc, exists v, G_DecodeUnverifiedLogoutResponse inflate um_logout enc = PVal v) /\
